@@ -128,6 +128,7 @@ MUTATIONS = [
     ("src/arc.rs", sub(r"\{ 0x60 \} else \{ 0 \}", "{ 0x40 } else { 0 }"), ["ARC_HEADER_PAD"]),
     ("src/fe9_arc.rs", sub(r"const PADDING_BOUNDARY: usize = 32;", "const PADDING_BOUNDARY: usize = 16;"), ["PACK_CONSTS"]),
     ("src/bin_archive.rs", sub(r"pointer_value \+ 0x20\)", "pointer_value + 0x1C)"), ["BIN_HEADER"]),
+    ("src/bin_archive.rs", sub(r"if file_size > u32::MAX as usize \{", "if file_size > u32::MAX as usize + 1 {"), ["BIN_HEADER"]),
     ("src/tpl.rs", sub(r"TplImageFormat::CI8 => \(8, 4\),", "TplImageFormat::CI8 => (4, 8),"), ["TPL_IMAGE_FORMATS"]),
     ("src/bch.rs", sub(r"backward_compatibility > 20 \{", "backward_compatibility > 0x20 {", count=2), ["BCH_CONSTS"]),
 ]
